@@ -76,7 +76,7 @@ func init() {
 		Assumptions: []string{
 			"exact positions are asserted only with the Ahem font (1em square glyphs, ascent 0.8em, descent 0.2em), left-to-right ASCII text, no floats, no hyphenation, no letter/word spacing",
 			"with DejaVu Sans (/usr/share/fonts/truetype/dejavu/DejaVuSans.ttf) only inequalities with 2px slack are asserted",
-			"feature combinations that trigger the open defects of notes/C11.md (D2, D3, D5, D7-D11, D13-D16, G1, G3; D1, D4, D6, D12 are fixed and compared) are not generated or are skipped by the reference model's guards (counted as blocks_skipped_known_defect_*)",
+			"feature combinations that trigger the open defects of notes/C11.md (D1-D3, D5, D7-D11, D13-D16, G1, G3; D4, D6, D12 are fixed and compared) are not generated or are skipped by the reference model's guards (counted as blocks_skipped_known_defect_*)",
 			"pre-wrap: plain text, single spaces, no space before a forced break; go-text engine: plain text in white-space normal/nowrap; overflow-wrap: plain text, no indent; word-break:break-all not compared",
 		},
 		Batch: 10,
